@@ -394,12 +394,17 @@ Definition show_x (r : xresult) : string :=
 Definition mkredir (ps : list (nat * list nat)) (p : nat) : rres :=
   match find (fun q => Nat.eqb (fst q) p) ps with Some q => RList (snd q) | None => RList [] end.
 (* several models in one table; every query carries the local models of the referrer's model *)
-Definition show_multi (use_redir : bool) (ps : list (nat * nat)) (m : list obj) (rd : list (nat * list nat))
+Definition show_multi (use_redir : bool) (ps : list (nat * nat)) (m : list obj) (rd : list (nat * list nat)) (bs : list nat)
            (qs : list (nat * list nat * string * nat)) : string :=
   show_bool (wf_model m) ++ show_bool (parents_decrease m) ++ "|" ++
   sjoin "," (map (fun q => let '(r, locals, tx, T) := q in
-                           if use_redir then show_x (fqn_import_resolve_r (mkconf ps) (mkredir rd) 3 m r locals [] (s2l tx) T)
-                           else show_x (lift_result (fqn_import_resolve (mkconf ps) m r locals [] (s2l tx) T))) qs).
+                           if use_redir then show_x (fqn_import_resolve_r (mkconf ps) (mkredir rd) 3 m r locals bs (s2l tx) T)
+                           else show_x (lift_result (fqn_import_resolve (mkconf ps) m r locals bs (s2l tx) T))) qs).
+Definition mkredir_p (rd : list (nat * list nat)) (post : list nat) (p : nat) : rres :=
+  if existsb (Nat.eqb p) post then RPost else mkredir rd p.
+(* a callback that answers Postponed for the objects in `post` *)
+Definition show_post (ps : list (nat * nat)) (m : list obj) (rd : list (nat * list nat)) (qs : list (nat * string * nat * list nat)) : string :=
+  "|" ++ sjoin "," (map (fun q => let '(r, tx, T, post) := q in show_x (fqn_resolve_r (mkconf ps) (mkredir_p rd post) 3 m r (s2l tx) T)) qs).
 Definition show_redir (ps : list (nat * nat)) (m : list obj) (rd : list (nat * list nat)) (qs : list (nat * string * nat)) : string :=
   "|" ++ sjoin "," (map (fun q => let '(r, tx, T) := q in show_x (fqn_resolve_r (mkconf ps) (mkredir rd) 3 m r (s2l tx) T)) qs).
 Open Scope nat_scope."""
@@ -682,6 +687,8 @@ def eval_ext(chk, X, pycases, mlive, vals, failures, disagreements):
         redir = {int(k): v for k, v in o["redir"].items()}
         chk.stat("several files: provider " + c["provider"])
         chk.stat("several files: models", len(o["roots"]))
+        if o.get("builtins"):
+            chk.stat("several files: cases with builtin models")
         names = [(x["cls"], x["name"]) for x in world[:len(c["nodes"])]]
         if names != [(nd.kind, nd.name) for nd in c["nodes"]]:
             raise RuntimeError("object numbering of the main file differs: %r" % (names,))
@@ -694,7 +701,7 @@ def eval_ext(chk, X, pycases, mlive, vals, failures, disagreements):
             val = next(v for k, d_, c_, cl, v in world[h]["attrs"] if k == attr)
             got = val[1] if val[0] == "o" else (val[1][idx] if idx < len(val[1]) else None)
             parts = text.split(".")
-            k, i, ends = X.spec_multi(world, conf, locals_, redir, h, parts, T)
+            k, i, ends = X.spec_multi(world, conf, locals_, redir, h, parts, T, o.get("builtins", []))
             chk.count(("mref", json.dumps(c["files"], sort_keys=True), h, attr, idx), nontrivial=True)
             chk.stat("several files: parsed references resolved in " + ("own model" if k == 0 else "another model" if k else "?"))
             if X.unique_multi(world, redir, parts) and (not ends or got != ends[0]):
@@ -702,7 +709,9 @@ def eval_ext(chk, X, pycases, mlive, vals, failures, disagreements):
                                  "what": "reference %r of object %d resolved to %s; the first model with a containment chain gives %s" % (text, h, got, ends[:1])})
         for (r, text, T), ia, ma in zip(c["queries"], o["answers"], manswers):
             parts = text.split(".")
-            k, i, ends = X.spec_multi(world, conf, locals_, redir, r, parts, T)
+            k, i, ends = X.spec_multi(world, conf, locals_, redir, r, parts, T, o.get("builtins", []))
+            if k is not None and k > len(locals_.get(X.root_of(world, r), [])):
+                chk.stat("several files: resolved in a builtin model")
             applies = X.unique_multi(world, redir, parts)
             want = "U" if not ends else "F%d" % ends[0]
             chk.count(("multi", json.dumps(c["files"], sort_keys=True), c["provider"], r, text, T), nontrivial=len(parts) >= 2 or bool(k))
@@ -748,10 +757,11 @@ def run(chk):
                 "cases": [{"gid": c["gid"], "text": c["text"], "queries": queries_of(c) if with_queries else [],
                            "py": c.get("py") if with_queries else None,
                            "redir_queries": c.get("redir_queries", []) if with_queries else [],
+                           "post_queries": c.get("post_queries", []) if with_queries else [],
                            "py_queries": [[r, t, T] for r in c["py_refs"] for t, T in c["py_names"]] if with_queries and c.get("py") else [],
                            "e2e": [{"text": p["text"], "holder": p["holder"], "attr": p["attr"], "index": p.get("index", 0)}
                                    for p in c.get("probes", [])] if with_queries else []} for c in chunk],
-                "multi": [{"gid": c["gid"], "provider": c["provider"], "files": c["files"], "main": c["main"],
+                "multi": [{"gid": c["gid"], "provider": c["provider"], "files": c["files"], "main": c["main"], "builtins": c.get("builtins", []),
                            "queries": c.get("queries", []) if with_queries else []} for c in mchunk]}
     outs = core.run_impl_parallel("c10", [payload(ch, False, mch) for ch, mch in zip(chunks, mchunks)])
     for mch, o in zip(mchunks, outs):
@@ -787,6 +797,10 @@ def run(chk):
                 c["redir"] = owner_redir(c["dump"])
                 if c["redir"]:
                     c["redir_queries"] = redir_queries(r.split("rd"), c)
+                    rp = r.split("post")
+                    n_obj = len(c["dump"])
+                    c["post_queries"] = [[q[0], q[1], q[2], sorted(set(rp.sample(list(c["redir"]), 1) + rp.sample(list(range(1, n_obj)), rp.range(0, 2))))]
+                                         for q in rp.sample(c["redir_queries"], min(12, len(c["redir_queries"])))]
             if isinstance(c["idx"], int) and c["idx"] % 4 == 0 and c["gid"] in ("A", "B"):
                 c["py"], c["py_refs"], c["py_names"] = X.gen_py(r.split("py"), c, c["dump"])
         live.append(c)
@@ -810,6 +824,7 @@ def run(chk):
             c["answers"], c["e2e_out"] = x["answers"], x["e2e"]
             c["py_dump"], c["py_answers"] = x.get("py_dump"), x.get("py_answers")
             c["redir_answers"] = x.get("redir_answers")
+            c["post_answers"] = x.get("post_answers")
             c["py_conf"] = {tuple(p) for p in x.get("py_conf") or []}
         for c, x in zip(mch, o[len(o) - len(mch):]):
             if x["world"] != c["out"]["world"] or x["locals"] != c["out"]["locals"]:
@@ -832,6 +847,12 @@ def run(chk):
         rd = "; ".join("(%d, [%s])" % (k, ";".join("%d" % x for x in v)) for k, v in sorted(c["redir"].items()))
         qs = "; ".join("(%d, %s, %d)" % (r, coq_s(t), CID[T]) for r, t, T in c["redir_queries"])
         exprs.append("show_redir %s %s [%s] [%s]" % (coq_conf(c["conf"]), coq_tbl(c["dump"]), rd, qs))
+    pcases = [c for c in rcases if c.get("post_answers")]
+    for c in pcases:
+        rd = "; ".join("(%d, [%s])" % (k, ";".join("%d" % x for x in v)) for k, v in sorted(c["redir"].items()))
+        c["post_rounds"] = [(q, before, a) for q, rounds in zip(c["post_queries"], c["post_answers"]) for before, a in rounds]
+        qs = "; ".join("(%d, %s, %d, [%s])" % (q[0], coq_s(q[1]), CID[q[2]], ";".join("%d" % x for x in before)) for q, before, a in c["post_rounds"])
+        exprs.append("show_post %s %s [%s] [%s]" % (coq_conf(c["conf"]), coq_tbl(c["dump"]), rd, qs))
     allx, defs = compress(exprs)
     # interleave so that the shards are balanced
     order = sorted(range(len(allx)), key=lambda i: (i % core.NPROC, i))
@@ -850,6 +871,24 @@ def run(chk):
     ph["coq_eval"] = round(time.time() - t0, 1)
     n_sens = 0
     eval_ext(chk, X, pycases, mlive, vals[len(live):], failures, disagreements)
+    for c, mv in zip(pcases, vals[len(live) + len(pycases) + len(mlive) + len(rcases):]):
+        manswers = mv.split("|")[1].split(",") if mv is not None else [None] * len(c["post_rounds"])
+        for (q, before, ia), ma in zip(c["post_rounds"], manswers):
+            chk.count(("post", c["gid"], c["text"], q[0], q[1], q[2], tuple(before)), nontrivial=ia == "P")
+            chk.stat("Postponed callback rounds: " + ("postponed" if ia == "P" else "answered"))
+            case = {"grammar": c["gid"], "text": c["text"], "referrer": q[0], "name": q[1], "target_class": q[2], "callback_postpones": before,
+                    "kind": "FQN(scope_redirection_logic answering Postponed once for some objects)"}
+            if ma is not None and ia != ma:
+                disagreements.append({"case": case, "impl": ia, "model": ma})
+        for q, rounds in zip(c["post_queries"], c["post_answers"]):
+            parts = q[1].split(".")
+            k, i, ends = X.spec_multi(c["dump"], c["conf"], {}, c["redir"], q[0], parts, q[2])
+            want = "U" if not ends else "F%d" % ends[0]
+            last = rounds[-1][1]
+            if last == "P" or last.startswith("E:") or (X.unique_multi(c["dump"], c["redir"], parts) and last != want):
+                failures.append({"case": {"grammar": c["gid"], "text": c["text"], "referrer": q[0], "name": q[1], "target_class": q[2], "callback_postpones": q[3],
+                                          "kind": "FQN(scope_redirection_logic answering Postponed once for some objects)"}, "impl": rounds, "tags": [],
+                                 "what": "after the postponed rounds %r the provider answers %s for %r; chains over contained and stand-in objects give %s" % (rounds, last, q[1], want)})
     for c, mv in zip(rcases, vals[len(live) + len(pycases) + len(mlive):]):
         manswers = mv.split("|")[1].split(",") if mv is not None else [None] * len(c["redir_queries"])
         chk.stat("trees queried with a scope_redirection_logic")
